@@ -87,6 +87,12 @@ def make_tree(p):
         for i in cms:
             c = sym_str("c%d" % i, L, ranges=((32, 126),))
             comments[i] = c
+        # which identifier slots are spelled alike is decided first: validity of the instance may depend on it
+        # (a parameter list with two equal names does not compile), and each case is its own path
+        ordered = [names[i] for i in sorted(names)]
+        for a_ in range(len(ordered)):
+            for b_ in range(a_):
+                bool(ordered[a_] == ordered[b_])
         out = SymStr(())
         pos = 0
         for m in re.finditer(r"\{(c?)(\d)\}", T):
